@@ -204,6 +204,12 @@ func runC13(c *Ctx) {
 	for _, cv := range w.invokeOfDeep(serve, "AttestSlot") {
 		c.Check(w.Expr(cv.Call.Args[0]) == "conv<string>("+req+")[const(1):]" || w.Expr(cv.Call.Args[0]) == "conv<string>("+req+"[const(1):])", "R2.passthrough", "server.AttestSlot arm|slot is the request body", w.Pos(cv.Pos()), "string(req)[1:]", "the slot name handed to the agent is not the request body: "+w.Short(cv.Call.Args[0]))
 	}
+	for _, bc := range w.boundCalls(serve) {
+		if (bc.Method == "ReadSlot" || bc.Method == "AttestSlot") && len(bc.Args) == 1 && w.canon(serve, bc.Recv) == ssa.Value(serve.Params[0]) {
+			ex := w.Expr(bc.Args[0])
+			c.Check(ex == "conv<string>("+req+")[const(1):]" || ex == "conv<string>("+req+"[const(1):])", "R2.passthrough", "server."+bc.Method+" arm|slot is the request body", w.Pos(bc.Site.Pos()), "string(req[1:])", "the slot handed to the agent is not the request body: "+w.Short(bc.Args[0]))
+		}
+	}
 	for _, cv := range w.invokeOfDeep(serve, "AddHardCert") {
 		// key: phi of ParsePublicKey(req[1:]) and ParsePublicKey(msg.KeyBlob); comment: "" or msg.Comment
 		okKey := true
@@ -244,6 +250,19 @@ func runC13(c *Ctx) {
 					nArgs++
 					why := w.staleFrom(a, cv, readCall)
 					c.Check(why == "", "R2.passthrough", fmt.Sprintf("server.%s arm|argument %d belongs to the request being served", cv.Call.Method.Name(), i), w.Pos(cv.Pos()), "defined in this iteration of the request loop",
+						"an argument handed to the served agent can come from a previous request on the connection: "+why)
+				}
+			}
+		}
+		if readCall != nil && len(serve.Params) > 0 {
+			for _, bc := range w.boundCalls(serve) {
+				if w.canon(serve, bc.Recv) != ssa.Value(serve.Params[0]) {
+					continue
+				}
+				for i, a := range bc.Args {
+					nArgs++
+					why := w.staleFrom(a, bc.Site, readCall)
+					c.Check(why == "", "R2.passthrough", fmt.Sprintf("server.%s arm|argument %d belongs to the request being served", bc.Method, i), w.Pos(bc.Site.Pos()), "defined in this iteration from the request just read",
 						"an argument handed to the served agent can come from a previous request on the connection: "+why)
 				}
 			}
